@@ -13,6 +13,7 @@ import z3
 import opendsm.eemeter.models.billing.data as bd
 import opendsm.eemeter.models.daily.data as dd
 from symv import engine as E
+from symv.carriers import patched
 from symv.case import Case, close
 from symv.proxies import NAN, SReal, is_nan, lift, model_env, real, to_real
 from symv.symarray import SymArray, cells
@@ -23,12 +24,13 @@ from . import dataclass as D
 EXPLANATION = "C09: end-to-end symbolic run of the daily/billing data classes; per-day temperature = mean of present readings, NaN iff half or fewer present; coverage counts."
 BOUNDS = {"quick": dict(days=3, feeds=["60min", "30min"], zones=["US/Pacific (23h day)", "UTC"], missing_layouts=["0", "1", "half-1", "half", "half+1"]),
           "thorough": dict(days=4, feeds=["60min", "30min"], zones=["US/Pacific (23h day)", "UTC", "Australia/Sydney (25h day)", "Europe/London"], missing_layouts="same + scattered")}
-STUBS = ["SufficiencyCriteria._check_extreme_values -> no-op (float()/quantile; covered by C10)"]
+STUBS = ["SufficiencyCriteria._check_extreme_values -> no-op (float()/quantile; covered by C10)",
+         "_check_data_sufficiency wrapped to record its argument (the per-day counts exist nowhere else), then runs unchanged"]
 MODELS_USED = ["symreal ExtensionArray (resample/asfreq/merge_asof/groupby executed by pandas)"]
 ASSUMPTIONS = ["feeds/offsets/zones are an enumerated catalogue; temperatures, usage values and the missing layout are solver-quantified",
                "equalities through inexact float constants (1/60 atoms) use relative tolerance 1e-9"]
-EXPECTED_REGIMES = ["exactly half of the day's readings present", "one more than half present", "23-hour day", "feed in another timezone than the meter"]
-# not covered: meters whose day starts at another hour than local midnight (the harness oracle for that layout is not settled)
+EXPECTED_REGIMES = ["exactly half of the day's readings present", "one more than half present", "23-hour day", "feed in another timezone than the meter",
+                    "meter read at 06:00 (its own 24-hour day)"]
 STEP = {"60": pd.Timedelta(hours=1), "30": pd.Timedelta(minutes=30)}
 START = {"US/Pacific": "2021-03-13", "UTC": "2021-06-01", "Australia/Sydney": "2021-04-03", "Europe/London": "2021-10-30"}
 
@@ -47,6 +49,8 @@ def cases(tier, seed):
         for feed in ("60", "30"):
             out.append(f"frame|{z}|{feed}|daily")
             out.append(f"series-utc|{z}|{feed}|daily")
+        out.append(f"series-06|{z}|60|daily")
+    out.append("series-06|US/Pacific|30|daily")
     return out
 
 
@@ -71,6 +75,17 @@ def build(entry, zone, feed, fam, days, missing_first, sym, env=None):
     n = len(idx)
     temp = D.col("T", n, nan_pos, sym, env)
     cls = dd.DailyBaselineData if fam == "daily" else bd.BillingBaselineData
+    orig = cls._check_data_sufficiency
+
+    def spy(self, sufficiency_df):  # observation point: the per-day counts only live in this argument
+        self._verif_counts = sufficiency_df
+        return orig(self, sufficiency_df)
+    with patched(cls, _check_data_sufficiency=spy):
+        return _build(cls, entry, zone, feed, days, idx, nan_pos, temp, sym, env)
+
+
+def _build(cls, entry, zone, feed, days, idx, nan_pos, temp, sym, env):
+    n = len(idx)
     if entry == "frame":
         obs = D.col("o", n, (), sym, env)
         df = pd.DataFrame({"observed": obs, "temperature": temp}, index=idx)
@@ -86,35 +101,54 @@ def build(entry, zone, feed, fam, days, missing_first, sym, env=None):
     return d, idx, nan_pos
 
 
+def meter_day(entry, zone, t):
+    """independent oracle: the meter day a row stamped t stands for = [t, same wall-clock time on the next calendar day)"""
+    nxt = (t.tz_convert(zone).tz_localize(None) + pd.Timedelta(days=1)).tz_localize(zone)
+    return t, nxt
+
+
 def expected_days(entry, zone, idx, nan_pos):
-    """independent oracle: meter day -> (positions of readings in the day, present positions)"""
+    """independent oracle: start of meter day -> (positions of the feed's readings in that day, present positions, complete?)
+    (a day is complete when the feed reaches its end, so that the edge of the feed is not mistaken for missing readings)"""
     hour = 6 if entry == "series-06" else 0
+    loc = idx.tz_convert(zone)
+    first = loc[0].tz_localize(None).normalize() + pd.Timedelta(hours=hour)
     out = {}
-    for i, t in enumerate(idx):
-        key = (t - pd.Timedelta(hours=hour)).date()
-        out.setdefault(key, []).append(i)
-    return {k: (v, [i for i in v if i not in nan_pos]) for k, v in out.items()}
+    k = -1
+    while True:
+        start = (first + pd.Timedelta(days=k)).tz_localize(zone)
+        k += 1
+        s0, e0 = meter_day(entry, zone, start)
+        if s0 > loc[-1]:
+            break
+        pos = [i for i, t in enumerate(loc) if s0 <= t < e0]
+        if pos:
+            out[s0] = (pos, [i for i in pos if i not in nan_pos], loc[0] <= s0 and e0 <= loc[-1] + (loc[1] - loc[0]))
+    return out
 
 
 def check_concrete(entry, zone, d, idx, nan_pos, env):
     pr = []
     df = d.df
     exp = expected_days(entry, zone, idx, nan_pos)
-    hour = 6 if entry == "series-06" else 0
+    counts = getattr(d, "_verif_counts", None)
     for t, val in zip(df.index, df["temperature"].to_numpy(dtype=float)):
-        key = (t - pd.Timedelta(hours=hour)).date()
-        if key not in exp:
+        if t not in exp:
             continue
-        allp, pres = exp[key]
-        if entry != "frame" and len(allp) < D.day_slots(key, zone, idx[1] - idx[0]) and hour:
-            continue  # partial meter day at the edge of the feed
+        allp, pres, complete = exp[t]
+        if not complete:
+            continue
         if 2 * len(pres) <= len(allp):
             if np.isfinite(val):
-                pr.append(f"{key}: {len(pres)} of {len(allp)} readings present but temperature {val} reported")
+                pr.append(f"{t}: {len(pres)} of {len(allp)} readings present but temperature {val} reported")
         else:
             m = float(np.mean([env.get(f"T{i}", 1.0) for i in pres]))
             if not np.isfinite(val) or abs(val - m) > 1e-6 * max(1.0, abs(m)):
-                pr.append(f"{key}: temperature {val} != mean of the {len(pres)} present readings {m}")
+                pr.append(f"{t}: temperature {val} != mean of the {len(pres)} present readings {m}")
+        if counts is not None and t in counts.index:
+            got = (float(counts.loc[t, "temperature_not_null"]), float(counts.loc[t, "temperature_null"]))
+            if got != (float(len(pres)), float(len(allp) - len(pres))):
+                pr.append(f"{t}: counts handed to the sufficiency test (present, absent) = {got}, the day has {(len(pres), len(allp) - len(pres))}")
     return pr
 
 
@@ -156,34 +190,44 @@ def run_case(case: Case, name: str):
         rp = ("temp", (lambda w: lambda mdl: dict(entry=entry, zone=zone, feed=feed, fam=fam, days=days, missing=lay[w], env=model_env(mdl, case.inputs)))(which))
         df = d.df
         exp = expected_days(entry, zone, idx, nan_pos)
-        hour = 6 if entry == "series-06" else 0
+        counts = getattr(d, "_verif_counts", None)
         tcells = cells(df["temperature"])
         seen = 0
+        last = max(k for k in exp)
+        offhour_subhourly = z3.BoolVal(entry == "series-06" and feed != "60")
         for t, val in zip(df.index, tcells):
-            key = (t - pd.Timedelta(hours=hour)).date()
-            if key not in exp:
+            if t not in exp:
                 continue
-            allp, pres = exp[key]
-            if hour and len(allp) < D.day_slots(key, zone, idx[1] - idx[0]):
+            allp, pres, complete = exp[t]
+            if not complete:
                 continue
             seen += 1
-            last_day = key == max(exp)
-            excl = [(fid, z3.BoolVal(feed != "60" and len(pres) < len(allp))), ("C09-final-reading-dropped", z3.BoolVal(last_day))]
+            last_day = t == last
+            excl = [(fid, z3.BoolVal(feed != "60" and len(pres) < len(allp))), ("C09-final-reading-dropped", z3.BoolVal(last_day)),
+                    ("C09-subhourly-feed-offhour-meter", offhour_subhourly)]
             if 2 * len(pres) <= len(allp):
                 case.prove(p, is_nan(val), "a day with half or fewer of its readings present is missing", replay=rp)
                 if 2 * len(pres) == len(allp):
                     case.regime("exactly half of the day's readings present")
             else:
                 if is_nan(val):
-                    case.prove(p, False, "a day with more than half of its readings present has a temperature", replay=rp)
-                    continue
-                mean = sum((z3.Real(f"T{i}") for i in pres), z3.RealVal(0)) / len(pres)
-                case.prove(p, close(to_real(lift(val)), mean, 1e-9), "day temperature == mean of the non-missing readings of that meter day", replay=rp, exclude=excl)
+                    case.prove(p, False, "a day with more than half of its readings present has a temperature", replay=rp, exclude=excl[2:])
+                else:
+                    mean = sum((z3.Real(f"T{i}") for i in pres), z3.RealVal(0)) / len(pres)
+                    case.prove(p, close(to_real(lift(val)), mean, 1e-9), "day temperature == mean of the non-missing readings of that meter day", replay=rp, exclude=excl)
                 if 2 * len(pres) == len(allp) + 1 or 2 * len(pres) == len(allp) + 2:
                     case.regime("one more than half present")
+            if counts is not None:
+                ok = t in counts.index and not isinstance(counts.loc[t, "temperature_not_null"], SReal) and \
+                    (float(counts.loc[t, "temperature_not_null"]), float(counts.loc[t, "temperature_null"])) == (float(len(pres)), float(len(allp) - len(pres)))
+                case.prove(p, bool(ok), "counts of present/absent readings handed to the sufficiency test are the day's exact counts", replay=rp,
+                           exclude=[("C09-final-reading-dropped", z3.BoolVal(last_day)), ("C09-subhourly-feed-offhour-meter", offhour_subhourly)])
             if len(allp) * (idx[1] - idx[0]) == pd.Timedelta(hours=23):
                 case.regime("23-hour day")
-        case.prove(p, seen >= days - 1, "every meter day of the span has a temperature row", replay=rp)
+            if entry == "series-06":
+                case.regime("meter read at 06:00 (its own 24-hour day)")
+        case.prove(p, seen >= days - 1, "every complete meter day of the span has a temperature row", replay=rp)
+        case.prove(p, counts is not None, "the sufficiency test received the per-day counts", replay=rp)
         if entry == "series-utc" and zone != "UTC":
             case.regime("feed in another timezone than the meter")
         # coverage counts that feed the sufficiency test (hourly path)
